@@ -2,7 +2,7 @@
    In the model every Rust panic site is an explicit `Panic n` result and every loop whose recursion is
    not structural runs on explicit fuel with an `OutOfFuel` result; `total r` says r is Ok or Err. *)
 From UL Require Import Bytes Subtags LangId Ext Likely Inst Grammar LangIdSpec SubtagProofs LangIdProofs ExtProofs
-                       TablesData LikelyProofs LayoutData DirectionProofs.
+                       TablesData LikelyProofs LayoutData DirectionProofs Sites.
 
 Theorem C01_language : forall s, total (language_from_bytes s).
 Proof. intros s. rewrite language_spec. destruct (lang_tok s); auto with tot. Qed.
@@ -50,6 +50,13 @@ Theorem C01_direction : forall likely x, wf_triple (li_lang x) None (li_region x
   exists d, direction likely the_layout the_tables x = Ok d.
 Proof. exact direction_total. Qed.
 
+(* every panic-capable expression in the CURRENT sources (unwrap, expect, unimplemented!, panic!,
+   assert!, index expressions, Vec::insert/remove at an index - inventory regenerated from /repo on
+   every run) is one the model represents *)
+Theorem C01_sites_covered : panic_sites_covered = true.
+Proof. exact sites_covered. Qed.
+
+Print Assumptions C01_sites_covered.
 Print Assumptions C01_language.
 Print Assumptions C01_script.
 Print Assumptions C01_region.
